@@ -161,10 +161,15 @@ def run(prop, tier):
         tot = run_chardata(out, prop, tier, wd)
         names = 0
         attr_events = 0
+        hist_steps = hist_prints = 0
         if prop == "C15":
             names = run_factory(out, prop, tier, wd)
             attr_events = run_attrs(out, prop, tier, wd)
-        out.evaluations = tot["events"] + names * 4 + attr_events
+            import dom
+            hist_steps, hist_prints = dom.c15_histories(out, prop, tier, wd)
+            out.extra["structural_history_steps"] = hist_steps
+            out.extra["prints_reparsed_in_histories"] = hist_prints
+        out.evaluations = tot["events"] + names * 4 + attr_events + hist_steps
         out.nontrivial_count = tot["edges"] + names
         out.extra.update(tot)
         out.extra["factory_names"] = names
@@ -184,7 +189,10 @@ def run(prop, tier):
                         "PI: a ? > space), arguments up to 2 characters, so that ']]>' / '--' / '?>' / mixed quotes only "
                         "arise by combining edits; after every call that reports success the document is printed, "
                         "re-parsed and compared with the DOM's view; plus multi-call walks and every name of MC_Name "
-                        "through the name-taking factories")
+                        "through the name-taking factories; plus random STRUCTURAL histories (insertions, removals, attribute "
+                        "edits, split_text) over a pool whose character data is dangerous only in combination (']]' next "
+                        "to '>', quotes, an entity with markup next to an attribute), printed and re-parsed after every "
+                        "successful state-changing call")
             out.assumptions = ["data strings up to length %d per kind" % (2 if tier == "quick" else 3),
                                "an implementation may refuse data that can only be held by escaping (C15 allows "
                                "refusal); it must refuse or faithfully store everything else"]
